@@ -319,10 +319,14 @@ struct RecP : osmium::handler::Handler {    // overrides only three callbacks an
 };
 struct FunD {   // visitor-style functor for DynamicHandler (no named callbacks, no flush)
     int h;
-    explicit FunD(int h_) : h(h_) {}
-    void operator()(const osmium::Node& o) { rec(h, CB_CALL, ST_NODE, &o); }
-    void operator()(const osmium::Way& o) { rec(h, CB_CALL, ST_WAY, &o); }
-    void operator()(const Item& o) { rec(h, CB_CALL, ST_ITEM, &o); }
+    // The function object has state of its own: every call must reach the object that
+    // DynamicHandler::set<>() constructed, not a copy of it (a copy keeps the address of the original)
+    const FunD* self;
+    explicit FunD(int h_) : h(h_), self(this) {}
+    void same() const { if (self != this) vh::violation("DynamicHandler forwards an item to a copy of the function object it holds", "state kept in the function object is lost"); }
+    void operator()(const osmium::Node& o) { same(); rec(h, CB_CALL, ST_NODE, &o); }
+    void operator()(const osmium::Way& o) { same(); rec(h, CB_CALL, ST_WAY, &o); }
+    void operator()(const Item& o) { same(); rec(h, CB_CALL, ST_ITEM, &o); }
 };
 struct Fun2 {   // function object with two call operators, wrapped by apply()
     int h;
